@@ -1,3 +1,4 @@
+#![allow(dead_code)]
 //! Run context shared by every check: tier, seed, known findings, violation
 //! recording, replay artefacts and the evidence file.
 //!
